@@ -15,9 +15,9 @@ import tempfile
 from vf.common import PY, REPO, ROOT
 
 
-def write_config(root: str, input_globs: list[str], output_dirs: list[str] | None = None, di: dict | None = None, force: bool | None = None, template_dirs: list[str] | None = None) -> str:
+def write_config(root: str, input_globs: list[str], output_dirs: list[str] | None = None, di: dict | None = None, force: bool | None = None, template_dirs: list[str] | None = None, grammar: str | None = None) -> str:
 	cfg = {
-		'grammar': os.path.join(REPO, 'data/grammar.lark'),
+		'grammar': grammar or os.path.join(REPO, 'data/grammar.lark'),
 		'template_dirs': (template_dirs or []) + [os.path.join(REPO, 'data/cpp/template')],
 		'trans_mapping': os.path.join(REPO, 'data/i18n.yml'),
 		'input_globs': input_globs,
@@ -49,6 +49,26 @@ def write_user_templates(root: str) -> str:
 	return tdir
 
 
+TYPE_IGNORE_RULE = '%ignore /#\\s*type:\\s*ignore[^\\n]*/'
+
+
+def write_grammar(root: str, variant: int, mtime: float | None = None) -> str:
+	"""A grammar file of the project's own: variant 0 = the stock text, variant 1 = the stock text without the lexer rule that drops
+	'# type: ignore' comments (they become ordinary comment statements). Returns the path."""
+	with open(os.path.join(REPO, 'data/grammar.lark'), encoding='utf-8') as f:
+		text = f.read()
+	if TYPE_IGNORE_RULE not in text:
+		raise RuntimeError('stock grammar no longer holds the type-ignore rule the grammar variant is built from')
+	if variant:
+		text = text.replace(TYPE_IGNORE_RULE, '// ' + TYPE_IGNORE_RULE, 1)
+	path = os.path.join(root, 'grammar.lark')
+	with open(path, 'w', encoding='utf-8', newline='') as f:
+		f.write(text)
+	if mtime is not None:
+		os.utime(path, (mtime, mtime))
+	return path
+
+
 def new_project_dir(prefix: str = 'vf-proj-') -> str:
 	return tempfile.mkdtemp(prefix=prefix)
 
@@ -77,6 +97,22 @@ def run_cli(root: str, args: list[str] | None = None, hashseed: str = '0', timeo
 	else:
 		cmd = [PY, '-X', 'utf8', script, '-c', 'config.yml', *(args or [])]
 	return subprocess.run(cmd, cwd=root, env=env, capture_output=True, text=True, timeout=timeout, errors='replace')
+
+
+def run_plan(root: str, steps: list[list], hashseed: str = '0', timeout: int = 600) -> subprocess.CompletedProcess:
+	"""Several runs of the real command line inside one interpreter process (vf.mon.multi_run), with edits between them."""
+	import json
+	env = dict(os.environ)
+	env['PYTHONHASHSEED'] = hashseed
+	env['PYTHONDONTWRITEBYTECODE'] = '1'
+	env['PYTHONPATH'] = os.pathsep.join([ROOT, REPO, os.path.join(ROOT, '.deps', 'py313'), root])
+	plan = os.path.join(root, 'vf-plan.json')
+	with open(plan, 'w', encoding='utf-8') as f:
+		json.dump({'script': os.path.join(REPO, 'rogw/tranp/bin/transpile.py'), 'steps': steps}, f)
+	try:
+		return subprocess.run([PY, '-X', 'utf8', '-m', 'vf.mon.multi_run', plan], cwd=root, env=env, capture_output=True, text=True, timeout=timeout, errors='replace')
+	finally:
+		os.remove(plan)
 
 
 def read_outputs(root: str, outdir: str = 'out') -> dict[str, str]:
